@@ -105,6 +105,19 @@ class Ctx:
         prof = "release" if release else "debug"
         return {b: os.path.join(self.bdir, target, prof, b) for b in bins}
 
+    def build_harness_asan(self, pkg, bins):
+        """Harness binaries (and the repository crates they link) under AddressSanitizer (nightly)."""
+        self.ensure_ws()
+        target = "h-" + pkg + "-asan"
+        args = ["build", "--offline", "--target", "x86_64-unknown-linux-gnu", "-p", pkg]
+        for b in bins:
+            args += ["--bin", b]
+        p = self.cargo(args, target, toolchain="+nightly", extra_env={"RUSTFLAGS": "-Zsanitizer=address -Cforce-frame-pointers=yes"})
+        if p.returncode != 0:
+            sys.stdout.write(p.stdout[-4000:])
+            raise Inconclusive("ASan build of %s failed" % pkg)
+        return {b: os.path.join(self.bdir, target, "x86_64-unknown-linux-gnu", "debug", b) for b in bins}
+
     def build_repo(self, packages, release=True, features=None, target=None):
         """Build artefacts of the repository itself (as shipped unless features are given)."""
         target = target or ("repo" + ("-" + "-".join(features) if features else "") + ("-rel" if release else "-dbg"))
